@@ -321,7 +321,8 @@ def run_history(ad: Adapter, ops, res: Result):
 def pit_cases(draw):
     fam = draw(st.sampled_from(['1d', '2d']))
     spec = draw(ng.netspecs(ng.Profile(family=fam, pads=('causal', 'same'), exclude=True,
-                                       reuse=True, max_blocks=3, min_blocks=2, dropout=False)))
+                                       reuse=True, max_blocks=3, min_blocks=2, dropout=False,
+                                       fixtures=True)))
     return {'method': 'pit', 'spec': spec, 'masks': draw(mk.pit_masks(spec, pu.fixed_ids(spec))),
             'full_cost': draw(st.booleans()), 'fold_bn': draw(st.booleans()),
             'discrete': draw(st.booleans()), 'wseed': draw(st.integers(0, 20)),
